@@ -93,6 +93,27 @@ CLAIMED["C09"] = dict(cat="proof", ref="DESIGN.md §5 C09, §12",
    note="the closure clause is checked on the implementation and tied to the model by correspondence, not proved (partial for that clause); theorem guard: plain "
         "schemas (no logical types) and no exception while validating branches; model==implementation observed by correspondence",
    tech="Lean 4 proof (scan = declarative rule, via validate = conforms) + rule-based spec encoder against the implementation's bytes")
+CLAIMED["C11"] = dict(cat="proof", ref="DESIGN.md §5 C11, §12",
+   text="Lean theorems: c11_names (whatever parse_schema accepts, every named type carries the full name of the specification's namespace rules and every "
+        "reference is spelled with the full name it denotes, at every position: canonical text = Spec.pcf of the raw schema), c11_reference_resolves, one "
+        "rejection theorem per rule (c11_reject_undefined / _redefined + c11_definition_registers + c11_names_only_grow / _unnamed / _symbols / _enum_default / "
+        "_default_prim / _default_union / _default_array / _default_map / _default_named / _decimal) and c11_error_propagates_{union,array,map,field,top}: an "
+        "error at any child position is the parent's error, so each rule fires at every depth. Implementation: generated valid schemas and single ill-forming "
+        "mutations of every listed kind at random positions, compared with the statement and with the model.",
+   note="acceptance of 'every specification-valid schema' is relative to the generator's notion of valid (checked, not proved); float('...') in the float/double "
+        "default check is approximated in the model (digits/nan/inf); known finding F19 (redefinition across top-level union members); model==implementation "
+        "observed by correspondence",
+   tech="Lean 4 proof (parser/canonical-form lockstep with an independent spec transformation; rejection + propagation lemmas) + mutation harness")
+CLAIMED["C13"] = dict(cat="proof", ref="DESIGN.md §5 C13, §12",
+   text="Lean theorems c13_eq_spec / c13_eq_spec_nested (to_parsing_canonical_form(parse_schema(raw)) = Spec.pcf(raw), the specification's transformation "
+        "written on the raw JSON value, for every schema, namespace nesting and depth), c13_spec_stable, c13_cosmetic_type / c13_cosmetic_field (the "
+        "transformation reads only type, name, namespace, fields, symbols, items, values, size and a field's name and type: edits confined to anything else, or "
+        "to attribute order, cannot change the canonical form). Implementation: canonical text compared with Spec.pcf on generated schemas and the repository's "
+        "reference vectors, ten kinds of cosmetic rewrite at random positions, fixed point, same-encoding both ways.",
+   note="fixed-point and same-encoding clauses run through json.loads and the codec: tested against the implementation, not proved (partial for those clauses); "
+        "the 'namespace+name vs dotted' rewrite is tested, not proved; known finding F18 (null namespace inside a namespaced type: the specification's form is "
+        "not a fixed point); strings are interpolated without JSON escaping in both implementation and model (names/symbols are regex-restricted)",
+   tech="Lean 4 proof (parser/canonical writer lockstep with an independent spec transformation) + cosmetic-rewrite harness")
 PENDING = {}
 
 def main():
